@@ -240,6 +240,28 @@ Theorem C01_source_tdevice_cost : forall n su ef ti to tr te c (s p : list R), l
   TDevice_cost (A:=R) n su ef ti to tr te c s p = tdev_cost (tq su ef ti to tr te c) s p.
 Proof. exact gen_tdevice_cost. Qed.
 
+(* ---- the preference-function combinators regenerated from functions.py on every run (Gen/Functions.v, translator/functions_tx.py:
+        NullFunction, SumFunction, ReflectedFunction, InnerSumFunction, X2D, Poly2D, Poly2DOffset over ABSTRACT operands) are the nodes
+        of the function AST that C01_function_ast_every_composition is about: __call__ = feval and deriv = fderiv of the node ---- *)
+From DK.Model Require Import FnOps.
+From DK.Gen Require Import Functions.
+From DK.Proofs Require Import GenFunctions.
+Theorem C01_source_function_combinators : forall (fs : list (fn R)) (g : fn R) pl ph xl xh qs cs offs (x : list R),
+  (SumFunction_call (map fobj_of fs) x = feval (FSum fs) x /\ SumFunction_deriv (map fobj_of fs) x = fderiv (FSum fs) x) /\
+  (ReflectedFunction_call (fobj_of g) x = feval (FReflect g) x /\ ReflectedFunction_deriv (fobj_of g) x = fderiv (FReflect g) x) /\
+  (InnerSumFunction_call (sfobj_hl (pl, ph, xl, xh)) x = feval (FInnerHL pl ph xl xh) x /\
+   InnerSumFunction_deriv (sfobj_hl (pl, ph, xl, xh)) x = fderiv (FInnerHL pl ph xl xh) x) /\
+  (X2D_call (map sfobj_hl qs) x = feval (FX2D qs) x /\ X2D_deriv (map sfobj_hl qs) x = fderiv (FX2D qs) x) /\
+  (Poly2D_call cs x = feval (FPoly2D cs) x /\ Poly2D_deriv cs x = fderiv (FPoly2D cs) x) /\
+  (Poly2DOffset_call cs offs x = feval (FPoly2DOffset cs offs) x /\ Poly2DOffset_deriv cs offs x = fderiv (FPoly2DOffset cs offs) x) /\
+  (NullFunction_call x = feval FNull x /\ NullFunction_deriv x = fderiv FNull x).
+Proof.
+  intros fs g pl ph xl xh qs cs offs x.
+  pose proof (gen_sum fs x) as [S1 [S2 _]]. pose proof (gen_reflect g x) as [R1 [R2 _]]. pose proof (gen_innersum pl ph xl xh x) as [I1 [I2 _]].
+  pose proof (gen_x2d qs x) as [X1 [X2 _]]. pose proof (gen_poly2d cs x) as [P1 [P2 _]]. pose proof (gen_poly2doffset cs offs x) as [O1 [O2 _]].
+  pose proof (gen_null x) as [N1 [N2 _]]. repeat split; assumption.
+Qed.
+
 (* ---- sums over contiguous slot ranges: if every summand has a total derivative on its own range, so has the sum, and it is the
    concatenation of the per-range gradients; hence CDevice2 with ANY number of contiguous cumulative ranges. Proofs/RangedTotal.v ---- *)
 From DK.Proofs Require Import RangedTotal.
